@@ -36,8 +36,17 @@ def sym_ceil(x):
   E = _E()
   if isinstance(x, SymReal):
     if isinstance(x, SymRealInt): return x
+    xe = z3.simplify(x.e)
+    if z3.is_rational_value(xe):
+      return SymRealInt(z3.IntVal(_math.ceil(Fraction(xe.numerator_as_long(), xe.denominator_as_long()))))
+    memo = E.__dict__.setdefault('_ceil_memo', {})
+    if E.__dict__.get('_ceil_memo_path') is not E.trace:
+      memo.clear(); E._ceil_memo_path = E.trace
+    key = xe.get_id()
+    if key in memo: return SymRealInt(memo[key][0])
     k = z3.Int(E.fresh_name('ceil!'))
-    E.add(z3.ToReal(k) >= x.e, z3.ToReal(k) - 1 < x.e)
+    E.add(z3.ToReal(k) >= xe, z3.ToReal(k) - 1 < xe)
+    memo[key] = (k, xe)       # keep xe alive so the AST id is not recycled
     return SymRealInt(k)
   if isinstance(x, SymInt): return x
   if isinstance(x, Fraction): return _math.ceil(x)
